@@ -579,6 +579,11 @@ tx_outs:\n{tx_outs}
         # get the relevant input
         tx_in = self.tx_ins[input_index]
         script_pubkey = tx_in.script_pubkey(self.network)
+        if script_pubkey.is_p2sh():
+            # BIP16: the ScriptSig of a p2sh input only pushes data (nothing above OP_16)
+            for command in tx_in.script_sig.commands:
+                if isinstance(command, int) and command > 96:
+                    return False
         if script_pubkey.is_witness_script() or script_pubkey.is_p2tr():
             # BIP141: the ScriptSig of a native witness program has to be empty
             if len(tx_in.script_sig.commands) > 0:
